@@ -1,16 +1,12 @@
+\* sensitivity: reader without excluded directories -> ExcludedIgnored must be violated
 CONSTANTS
-  Shapes <- OneShape
+  Shapes <- Tiny
   MaxSC = 2
   Cols <- ColsDef
-  Excluded <- ExcludedDef
+  Excluded <- NoExcluded
   DecoyKinds <- DecoyKindsDef
   DecoyRule <- TwoDecoy
   ENFORCE_BIDS = TRUE
   DEEPER_WINS = TRUE
 SPECIFICATION Spec
-INVARIANT TypeOK
-INVARIANT Deterministic
-INVARIANT ChainExact
-INVARIANT MergedIsTopDown
-INVARIANT OwnColumns
 INVARIANT ExcludedIgnored
